@@ -1,5 +1,6 @@
-(* C04/Refuted.v -- statements of the property that are FALSE of the faithful model
-   (each is a recorded finding, reproduced on the real code by a probe of harness/c04.py). *)
+(* C04/Refuted.v -- what two REPAIRED defects were, as statements about the explicit old
+   variant of the model (both findings are fixed in /repo: 7ebf769, c9dadbb; the probes with
+   the same keys now pass and would fail again if a defect returned). *)
 From Coq Require Import ZArith Reals List Bool.
 From Verif Require Import Base.Num Base.Vec C04.Model C04.Proofs C04.Instances.
 Import ListNotations.
@@ -13,7 +14,7 @@ Definition wit_s : sexpr R := SMulV (SLeaf wit_f) [1].
 
 Lemma flag_complete_refuted_R :
   exists (s : sexpr R) (o : oexpr R),
-    sleaves_ok s /\ build variant_current s = Ok o /\ slin s = true /\ olin variant_current o = false.
+    sleaves_ok s /\ build variant_old s = Ok o /\ slin s = true /\ olin variant_old o = false.
 Proof.
   exists wit_s, (ORVec true (OLeaf wit_f) [1]).
   split; [|split; [|split]]; try reflexivity.
@@ -26,5 +27,5 @@ Qed.
    the expression is well-typed by the documentation but raises TypeError. *)
 Definition wit_ip : leaf R := LIP 0 [1].
 Lemma add_scalar_field_range_rejected_R :
-  build variant_current (SAddC (SLeaf wit_ip) 1) = Err TypeErr.
+  build variant_old (SAddC (SLeaf wit_ip) 1) = Err TypeErr.
 Proof. reflexivity. Qed.
